@@ -124,6 +124,9 @@ impl<'a> SessionData<'a> {
                 comp.reason.code().as_result()?;
             }
             ReceivedPacket::PubRel(rel) => {
+                if rel.packet_id == 0 {
+                    return Err(ProtocolError::MalformedPacket.into());
+                }
                 let reason = if let Some(index) = self
                     .pending_server_packet_ids
                     .iter()
@@ -159,7 +162,10 @@ impl<'a> SessionData<'a> {
                 match info.qos {
                     QoS::AtMostOnce => {}
                     QoS::AtLeastOnce => {
-                        let packet_id = info.packet_id.ok_or(ProtocolError::MalformedPacket)?;
+                        let packet_id = info
+                            .packet_id
+                            .filter(|id| *id != 0)
+                            .ok_or(ProtocolError::MalformedPacket)?;
                         let reason = if self.pending_server_packet_ids.contains(&packet_id) {
                             ReasonCode::PacketIdInUse
                         } else {
@@ -174,7 +180,10 @@ impl<'a> SessionData<'a> {
                         self.outbound.queue_control(action)?;
                     }
                     QoS::ExactlyOnce => {
-                        let packet_id = info.packet_id.ok_or(ProtocolError::MalformedPacket)?;
+                        let packet_id = info
+                            .packet_id
+                            .filter(|id| *id != 0)
+                            .ok_or(ProtocolError::MalformedPacket)?;
                         let duplicate = self.pending_server_packet_ids.contains(&packet_id);
                         let reason = if !duplicate {
                             self.pending_server_packet_ids
